@@ -172,6 +172,14 @@ def _main(a, prop, prop_id, seed, known, workdir, t0):
             if a.examples is not None:
                 args += ["--examples", str(a.examples)]
             jobs.append((f"gen{i}", args))
+    fuzz_runs = budget.get("fuzz_runs", 0) if hasattr(prop, "strategy") else 0
+    if a.examples is not None and fuzz_runs:
+        fuzz_runs = min(fuzz_runs, a.examples)
+    if fuzz_runs:
+        for i in range(nshards):
+            jobs.append((f"fuzz{i}", ["--prop", prop_id, "--tier", tier, "--mode", "fuzz", "--seed", str(seed),
+                                      "--shard", str(i), "--nshards", str(nshards),
+                                      "--examples", str(max(1, -(-fuzz_runs // nshards)))]))
     results = _run_workers(jobs, workdir, safety)
 
     # ---------------------------------------------------------------- merge
